@@ -5,6 +5,14 @@ Local Open Scope Z_scope.
 
 Definition fn_std (f : nat) (args : list Z) : option Z :=
   let a := nth 0 args 0 in let b := nth 1 args 0 in let c := nth 2 args 0 in
+  (* ids >= 100: the library's own operators and declared functions on int (the harness builds these nodes with the real overloads of
+     node_operators.h / node_functions.h): 100 +  101 -  102 ^  103 &  104 |  110 unary -  111 ~  112 unary +  113 abs *)
+  if Nat.leb 100 f then
+    Some (match Nat.sub f 100 with
+          | 0%nat => a + b | 1%nat => a - b | 2%nat => Z.lxor a b | 3%nat => Z.land a b | 4%nat => Z.lor a b
+          | 10%nat => - a | 11%nat => Z.lnot a | 12%nat => a | _ => Z.abs a
+          end)
+  else
   if Nat.leb 50 f && Z.eqb a 13 then None else
   Some (match Nat.modulo f 5 with
         | O => a + b + c + Z.of_nat f
